@@ -298,6 +298,31 @@ fn arithmetic(e: &mut Eng) {
     }
 }
 
+/// "lowest non-zero derivative" is a zero test: sweep values around zero (subnormals, MIN_POSITIVE,
+/// values below f32::EPSILON) in the velocity and acceleration slots.
+fn zero_boundary(e: &mut Eng) {
+    let tiny = [0.0f32, -0.0, f32::from_bits(1), -f32::from_bits(1), f32::MIN_POSITIVE, -f32::MIN_POSITIVE, 1e-38, -1e-30, 1e-20, -1e-10, 1e-7, -5e-8, f32::EPSILON, -f32::EPSILON, 1e-3, -1.0];
+    for &p in &[0.0f32, 3.5, -1e-7] {
+        for &v in &tiny {
+            for &a in &tiny {
+                e.executions += 1;
+                e.states += 1;
+                e.transitions += 1;
+                e.checks += 1;
+                e.nontrivial += 1;
+                let s = State::new_raw(p, v, a);
+                let c = Command::from(s);
+                let want = if a != 0.0 { Command::Acceleration(a) } else if v != 0.0 { Command::Velocity(v) } else { Command::Position(p) };
+                if format!("{:?}", c) != format!("{:?}", want) {
+                    e.violation("command:from-state", 1, || format!("Command::from({:?}) = {:?}, lowest non-zero derivative is {:?}", s, c, want));
+                }
+                e.outcome(h64(&(p.to_bits(), v.to_bits(), a.to_bits())));
+            }
+        }
+    }
+    e.sample(|| "Command::from(State(3.5, 1e-7, 0)) = Velocity(1e-7)".to_string());
+}
+
 pub fn run(_ctx: &Ctx) -> Vec<Eng> {
     let exact = states(&COMP);
     let broad = states(&BROAD);
@@ -323,6 +348,7 @@ pub fn run(_ctx: &Ctx) -> Vec<Eng> {
     );
     conversions(&mut e3, &exact);
     conversions(&mut e3, &broad);
+    zero_boundary(&mut e3);
     e3.sample(|| "Command::from(State(3,-0,0)) = Position(3)".to_string());
     let mut e4 = Eng::new(
         "c14-arithmetic",
